@@ -18,7 +18,19 @@ import (
 func (fx *FnExec) calleeContract(cc *ssa.CallCommon) (*Contract, string) {
 	if cc.IsInvoke() {
 		k := funcKeyOf(cc.Method)
-		return fx.e.contracts[k], k
+		if c := fx.e.contracts[k]; c != nil {
+			return c, k
+		}
+		// default contract of the interface the method is declared in
+		if sig, ok := cc.Method.Type().(*types.Signature); ok && sig.Recv() != nil {
+			if n, ok := unalias(sig.Recv().Type()).(*types.Named); ok && n.Obj().Pkg() != nil {
+				dk := "ifacedefault:" + n.Obj().Pkg().Path() + "." + n.Obj().Name()
+				if c := fx.e.contracts[dk]; c != nil {
+					return c, dk
+				}
+			}
+		}
+		return nil, k
 	}
 	if fn := cc.StaticCallee(); fn != nil {
 		k := keyOfFunction(fn)
@@ -724,6 +736,9 @@ func (fx *FnExec) ret(x *ssa.Return) error {
 	}
 	for _, con := range cons {
 		for i, en := range con.Ens {
+			if en.Kind == "censures" {
+				continue // bookkeeping of the call event: assumed at call sites only
+			}
 			env := fx.specEnv(&fx.cur, &fx.entry, results)
 			t, err := env.evalBool(en.Text)
 			if err != nil {
